@@ -9,7 +9,7 @@ PROP = {
     "modelrun": {"name": "c07", "extracted": ["c23_model"], "driver": "ocaml/c23/c23_run.ml"},
     "tiers": {"quick": {"cases": 2500}, "thorough": {"cases": 60000}},
     "search_cases": 8000,
-    "rule": "cases as for C23 (same generator, profile c07: IPv4 always configured, two sessions in half of the cases, "
+    "rule": "deterministic part first: ExitProduct for Established (routes installed, second established session) x connection {healthy, writes fail, peer closed} x 42 events x 4 configurations; then cases as for C23 (same generator, profile c07: IPv4 always configured, two sessions in half of the cases, "
             "80% mutated valid conversations with UPDATEs, frequent re-establishment); import policy accept / reject / "
             "rewrite (set local-pref 200); exits by NOTIFICATION, hold poll, keepalive timer on a broken connection, raw "
             "headers of all classes, undecodable bodies, unexpected OPEN, ManualStop/AutomaticStop/Cease; a case is "
